@@ -751,6 +751,18 @@ class SymExec:
                 if isinstance(f, ast.Attribute):
                     rt = self._static_type(fr, f.value)
                     via_class = any(m[0] == "type" for m in members(rt)) and not target.is_classmethod and not target.is_staticmethod
+        if target is None and not repo_targets and not starred and fterm is None and isinstance(f, ast.Attribute) and recv is not None and recv[0] not in ("classref", "global", "builtin"):
+            # the static type of the receiver expression is not known (a local bound to what a generic helper returned), but the
+            # *term* is one whose classes were recorded where it was read: `rule = _required(self._rule, ..); rule.step()`
+            impls: list[FuncInfo] = []
+            for fq in self.classes_of(recv):
+                ci = self.repo.classes.get(fq)
+                for m in self.repo.implementations(ci, f.attr) if ci is not None else ():
+                    if m not in impls:
+                        impls.append(m)
+            concrete = [m for m in impls if not m.is_abstract]
+            if len(concrete) == 1 and not concrete[0].is_property and not concrete[0].is_staticmethod and not concrete[0].is_classmethod:
+                target, via_class = concrete[0], False
         if target is not None and not starred:
             try:
                 env = self.bind(target, recv, via_class, args, kws, fterm, fr)
